@@ -537,6 +537,12 @@ pub mod spec {
     pub fn strip_prefix_lit<'a>(s: &'a str, p: &str) -> (r: Option<&'a str>)
         ensures match r { Some(x) => p@.is_prefix_of(s@) && x@ == s@.skip(p@.len() as int), None => !p@.is_prefix_of(s@) },
     { s.strip_prefix(p) }
+    pub uninterp spec fn str_trim_end_matches(s: Seq<char>, p: Seq<char>) -> Seq<char>;
+    pub uninterp spec fn str_trim_start_matches(s: Seq<char>, p: Seq<char>) -> Seq<char>;
+    #[verifier::external_body]
+    pub fn trim_end_matches_lit<'a>(s: &'a str, p: &str) -> (r: &'a str) ensures r@ == str_trim_end_matches(s@, p@) { s.trim_end_matches(p) }
+    #[verifier::external_body]
+    pub fn trim_start_matches_lit<'a>(s: &'a str, p: &str) -> (r: &'a str) ensures r@ == str_trim_start_matches(s@, p@) { s.trim_start_matches(p) }
     // the other splitting methods and the other numeric parsers, should a change start using them: deterministic, uninterpreted, and DIFFERENT
     // functions (so that one used in place of another is noticed)
     pub uninterp spec fn str_split_terminator(s: Seq<char>, p: Seq<char>) -> Seq<Seq<char>>;
